@@ -146,7 +146,11 @@ func negotiator(f func(*Session, *StreamConfig) StreamConfig) Negotiator {
 
 				location := s.LocalAddr()
 				origin := s.RemoteAddr()
-				err = intstream.Expect(ctx, in, s.in.d, s.State()&Received == Received, websocket)
+				// Parse the header into a copy of the stream info: a header that is
+				// refused (by Expect, or by the address checks below) must not replace
+				// the addresses that have already been established.
+				newIn := *in
+				err = intstream.Expect(ctx, &newIn, s.in.d, s.State()&Received == Received, websocket)
 				if err != nil {
 					nState.doRestart = false
 					return mask, nil, nState, err
@@ -158,16 +162,17 @@ func negotiator(f func(*Session, *StreamConfig) StreamConfig) Negotiator {
 					// previously set, just set it as the new origin JID since we've probably
 					// just negotiated TLS and the client is comfortable telling us who it is
 					// claiming to be now.
-				case !origin.Equal(s.in.Info.From):
-					return mask, nil, nState, fmt.Errorf("xmpp: stream origin %s does not match previously set origin %s", s.in.Info.From, origin)
+				case !origin.Equal(newIn.From):
+					return mask, nil, nState, fmt.Errorf("xmpp: stream origin %s does not match previously set origin %s", newIn.From, origin)
 				}
 				switch {
 				case location.Equal(jid.JID{}):
 					// If we're a server receiving connection and "to" wasn't previously set,
 					// just set it as this is the virtualhost we should use.
-				case !location.Equal(s.in.Info.To):
-					return mask, nil, nState, fmt.Errorf("xmpp: stream location %s does not match previously set location %s", s.in.Info.To, location)
+				case !location.Equal(newIn.To):
+					return mask, nil, nState, fmt.Errorf("xmpp: stream location %s does not match previously set location %s", newIn.To, location)
 				}
+				*in = newIn
 
 				location = in.To
 				origin = in.From
@@ -197,22 +202,25 @@ func negotiator(f func(*Session, *StreamConfig) StreamConfig) Negotiator {
 					nState.doRestart = false
 					return mask, nil, nState, err
 				}
-				err = intstream.Expect(ctx, in, s.in.d, s.State()&Received == Received, websocket)
+				// As above: only a header that passes every check replaces the stream info.
+				newIn := *in
+				err = intstream.Expect(ctx, &newIn, s.in.d, s.State()&Received == Received, websocket)
 				if err != nil {
 					nState.doRestart = false
 					return mask, nil, nState, err
 				}
 
 				switch {
-				case !location.Equal(s.in.Info.From):
-					return mask, nil, nState, fmt.Errorf("xmpp: stream location %s does not match previously set location %s", s.in.Info.From, location)
-				case !s.in.Info.To.Equal(jid.JID{}) && !origin.Equal(s.in.Info.To):
+				case !location.Equal(newIn.From):
+					return mask, nil, nState, fmt.Errorf("xmpp: stream location %s does not match previously set location %s", newIn.From, location)
+				case !newIn.To.Equal(jid.JID{}) && !origin.Equal(newIn.To):
 					// Technically this logic is not correct (we should only allow empty
 					// "to" attributes if we didn't set "from" yet, so we should be
 					// checking that). However, some servers don't send a "to" at all in
 					// violation of the spec. See: https://issues.prosody.im/1625
-					return mask, nil, nState, fmt.Errorf("xmpp: stream origin %s does not match previously set origin %s", s.in.Info.To, origin)
+					return mask, nil, nState, fmt.Errorf("xmpp: stream origin %s does not match previously set origin %s", newIn.To, origin)
 				}
+				*in = newIn
 			}
 		}
 
